@@ -18,8 +18,8 @@ CLAIMED = {
     "C09": ("fault_enumeration", "property-based testing with a run-time STARK family (GenStark) and simulated satisfying traces; single-cell / public-input corruptions judged by an independent row-by-row evaluator; proof-element edits",
             "Generated STARK definitions (1-16 columns, declared degree 0-9, 0-4 public inputs, state/derived/boolean/free columns) with satisfying traces prove and verify under generated StarkConfigs; each single-cell corruption (first, last, second-to-last, interior row) or public-input change is classified by the harness evaluator: violating ones must never verify (real prover with lenient truncation), non-violating ones must still verify; proof elements are edited and must be rejected.",
             "Edit rejections asserted only for non-constant traces with rate_bits*queries+pow >= 40. Run on scalar and AVX-512 builds.", "§C09"),
-    "C13": ("exploration", "model-based property testing: textbook Poseidon / overwrite-mode sponge / duplex challenger / own Keccak-f[1600] references, layer-wise and stateful (op sequences, re-chunking) comparison; scalar + debug-assert + AVX-512 builds",
-            "Over a million generated 12-element states per run (non-canonical and boundary limbs, crafted MDS-wrap states) through every optimised Poseidon routine and layer versus a textbook reference with embedded published vectors; sponge functions for all boundary message lengths; generated absorb/squeeze sequences against a duplex model and re-chunking metamorphic checks; Keccak hashing and the rejection-sampling permutation against an own Keccak.",
+    "C13": ("exploration", "model-based property testing: textbook Poseidon / overwrite-mode sponge / duplex challenger / own Keccak-f[1600] references, layer-wise and stateful (op sequences, re-chunking) comparison; scalar + debug-assert + AVX-512 builds; plus a coverage-guided libFuzzer/ASan target (poseidon) against the same reference",
+            "Over a million generated 12-element states per run (non-canonical and boundary limbs, crafted MDS-wrap states, states solved so that the 160-bit partial-round accumulator sits at its limb/carry boundaries) through every optimised Poseidon routine and layer versus a textbook reference with embedded published vectors; sponge functions for all boundary message lengths; generated absorb/squeeze sequences against a duplex model and re-chunking metamorphic checks; Keccak hashing and the rejection-sampling permutation against an own Keccak.",
             "x86_64 Poseidon SIMD code is disabled in this tree, so SIMD variants exercise the scalar path under different codegen.", "§C13"),
     "C17": ("exploration", "property-based round-trip testing of byte encodings with cross-proving between original and restored circuits",
             "Generated circuits over the default serializer registries (20 generator kinds, 15 gate kinds observed, incl. lookups and blinding): proofs, compressed proofs, CircuitData, Prover/Verifier/Common/VerifierOnly data round-trip, re-encode byte-identically, keep their digest, and original/restored circuits accept each other's fresh proofs with the reference public inputs.",
@@ -57,15 +57,15 @@ CLAIMED = {
     "C12": ("exploration", "model-based property testing: independent reference Merkle tree / batch tree / path-compression models, negative catalogue, rayon pools of 1/2/3/16 threads",
             "Tens of thousands of generated trees (Poseidon and Keccak, all cap heights, leaf widths around the digest size, duplicate leaves, batch trees of 1-4 heights, index multisets) compared with a textbook reference; every negative (other leaf/index, altered sibling or cap entry, malformed path) must give the reference verdict; construction repeated under different thread counts.",
             "hash_or_noop/two_to_one are taken from the library (judged by C13); scheduling is varied by pool size and repetition only.", "§C12"),
-    "C14": ("exploration", "property-based differential testing against u128/BigUint reference arithmetic, boundary-biased operand generators, scalar + debug-assert + AVX-512 builds",
+    "C14": ("exploration", "property-based differential testing against u128/BigUint reference arithmetic, boundary-biased operand generators, scalar + debug-assert + AVX-512 builds; plus a coverage-guided libFuzzer/ASan target (field_ops) against the same reference",
             "Millions of generated operand tuples per run (boundary-biased over all 64-bit representations, correlated pairs that reach the double-overflow / borrow branches) compared with exact u128 / schoolbook reference arithmetic, on scalar, debug-assertion and SIMD builds. Sampling, not exhaustive over 2^128 pairs.",
             "Trusts Rust u128 arithmetic and num::BigUint as the oracle; packed code reached through Packable::Packing as production code does.", "§C14"),
     "C16": ("exploration", "property-based round-trip and metamorphic testing of proof compression on small FRI domains with many queries (collisions forced), plus edited inputs",
             "Generated accepted proofs on small domains with up to 40 queries, so repeated indices and shared cosets at every depth are common (counted from the public challenges): decompress(compress(p)) == p, compress(decompress(c)) == c, byte round trip, verify_compressed accepts; for value-edited inputs verify_compressed(c*) == verify(decompress(c*)).",
             "Equivalence for edited inputs is stated on the same information (after compression), because compression legitimately discards redundant siblings.", "§C16"),
-    "C18": ("exploration", "property-based + mutation fuzzing of proof values (serde-tree shape/range edits) and of byte encodings (9 byte mutators), panic capture and allocation probe as oracles",
-            "Shape edits of every container (thorough) / sampled (quick), out-of-range numbers and map-key edits on plain and compressed proofs handed to verify / verify_compressed / decompress; tens of thousands of mutated encodings handed to both decoders and then the verifiers. A panic, an oversized allocation, or Ok for a value that is not field-equal to the valid proof is a violation.",
-            "Release build is the reference (debug assertions off). STARK entry points are covered once the STARK generator lands (see notes). Allocation bound probed on the decoding thread.", "§C18"),
+    "C18": ("exploration", "property-based + mutation fuzzing of proof values (serde-tree shape/range edits) and of byte encodings (9 byte mutators, forged length fields in a memory-limited child process), panic capture and allocation probe as oracles, on release and debug-assertion builds; plus a coverage-guided libFuzzer/ASan target (decode_proof) with the same oracle",
+            "Shape edits of every container (thorough) / sampled (quick), out-of-range numbers and map-key edits on plain and compressed proofs handed to verify / verify_compressed / decompress / verify_stark_proof; tens of thousands of mutated encodings handed to both decoders and then the verifiers. A panic, an oversized allocation, or Ok for a value that is not field-equal to the valid proof is a violation.",
+            "Both the release and the debug-assertion build must fail cleanly. STARK entry points covered at value level (no byte decoder for STARK proofs outside recursion targets). Allocation bound probed on the decoding thread; forged length fields decoded in a child process under ulimit -v.", "§C18"),
 }
 PENDING_REASON = "check not implemented yet in this round (work in progress; see DESIGN.md §6 for the order of work)"
 
